@@ -152,7 +152,7 @@ def _sampler_index(sched, s):
     return -1
 
 
-def run_protocol(cfg, prefix, mode="sync", horizon=6000):
+def run_protocol(cfg, prefix, mode="sync", horizon=6000, sleep_at=None):
     """One execution of the scheduler/agent exchange, driven exactly as Calibrator.calibrate drives it."""
     log = []
     obs = {"samplers": [], "sessions": [], "error": None, "abort": None, "leaked": [], "thread_exc": None, "log": log, "losses": []}
@@ -167,7 +167,7 @@ def run_protocol(cfg, prefix, mode="sync", horizon=6000):
                        sched.__dict__.get("_pending_action"), tuple(getattr(agent, "Q", ())), len(log),
                        tuple((t.finished, t.wait_desc) for t in ctl.threads), kind if kind != "line" else None, tid))
 
-    ctl = vt.Controller(prefix, horizon=horizon, snapshot=snap)
+    ctl = vt.Controller(prefix, horizon=horizon, snapshot=snap, sleep_at=sleep_at)
     vt.set_controller(ctl, tracer)
     batch = 0
     fault = cfg.get("fault")  # {"session": i, "batch": j, "where": "after_get"|"before_get"}
@@ -214,7 +214,7 @@ def run_protocol(cfg, prefix, mode="sync", horizon=6000):
     for t in ctl.threads[1:]:
         if t.exc is not None:
             obs["thread_exc"] = f"{type(t.exc).__name__}: {t.exc}"
-    if obs["abort"] in ("stop",):
+    if obs["abort"] in ("stop", "sleep-blocked"):
         obs["abort"] = None
     if obs["abort"] and obs["abort"].startswith("watchdog"):
         raise HarnessBroken(obs["abort"])
